@@ -20,6 +20,15 @@ INTO_ITER = "core::iter::traits::collect::IntoIterator::into_iter"
 TRAIT = "selium::traits::keep_alive::KeepAliveStream"
 
 
+def inl(F, b):
+    """`b` with the private (sync and async) helpers of its own module looked through; the vocabulary the rules speak in — back-off
+    iterator, ConnectionStatus constructors, error classification, logging — stays as calls"""
+    keep = [p for p in F.bodies if p.startswith((KA + "backoff_strategy", KA + "connection_status", KA + "helpers", "<" + KA + "backoff_strategy", "selium::logging",
+                                                 "selium::connection", "selium::streams"))
+            or ("backoff_strategy" in p and p.startswith("<"))]
+    return F.inlined(b, keep=keep)
+
+
 def is_budget_creation(c):
     n = strip_generics(c.callee)
     return (n == INTO_ITER and "BackoffStrategy" in c.self_ty) or n in (KA + "connection_status::ConnectionStatus::disconnected",)
@@ -35,6 +44,7 @@ def loop_of(body, bb):
 def d1(ctx, F):
     tr = F.one_body(r"^selium::keep_alive::reqrep::KeepAlive::<T>::try_reconnect::\{closure#0\}$")
     ctx.touch(tr)
+    tr = inl(F, tr)          # (async) helpers of the retry loop are looked through
     nexts = [c for c in tr.calls() if strip_generics(c.callee) == ITER_NEXT and "BackoffStrategyIter" in c.self_ty]
     ctx.floor("C12.D1.budget.consumers", len(nexts), 1)
     inner = [c for c in tr.calls() if is_budget_creation(c)]
@@ -72,6 +82,7 @@ def d1(ctx, F):
     # pub/sub
     od = F.body(KA + "pubsub::KeepAlive::<T>::on_disconnect")
     ctx.touch(od)
+    od = inl(F, od)
     cr = [c for c in od.calls() if is_budget_creation(c)]
     sws = K.find_variant_switches(od, KA + "connection_status::ConnectionStatus")
     ok = False
@@ -103,7 +114,7 @@ def none_arm(body, call):
 
 
 def d2(ctx, F):
-    tr = F.one_body(r"^selium::keep_alive::reqrep::KeepAlive::<T>::try_reconnect::\{closure#0\}$")
+    tr = inl(F, F.one_body(r"^selium::keep_alive::reqrep::KeepAlive::<T>::try_reconnect::\{closure#0\}$"))
     nexts = [c for c in tr.calls() if strip_generics(c.callee) == ITER_NEXT and "BackoffStrategyIter" in c.self_ty]
     for c in nexts:
         arm, m = none_arm(tr, c)
@@ -125,11 +136,12 @@ def d2(ctx, F):
                     again = [x for x in b.calls() if x.bb in r and (strip_generics(x.callee) in (TRAIT + "::reestablish_connection", ITER_NEXT, KA + "reqrep::KeepAlive::try_reconnect")
                                                                     or x.name() in ("listen", "request") and "streams::request_reply" in x.callee)]
                     errs = [1 for i2, j, pl, rv, s in K.aggregates(b, "core::result::Result", r) if rv["variant"] == "Err" and pl["l"] == 0]
+                    errs += [1 for x in b.calls() if x.bb in r and strip_generics(x.callee) == "core::ops::try_trait::FromResidual::from_residual" and x.dest and x.dest["l"] == 0]
                     who = b.path.rsplit("::", 2)[-2] if "closure" in b.path else b.path
                     ctx.check(not again and bool(errs), "C12.D2.unrecoverable", "unrecoverable-retried:%s" % who,
                               "in %s an unrecoverable error is returned at once (no further attempt)" % who, c.span)
     # pub/sub exhaustion
-    od = F.body(KA + "pubsub::KeepAlive::<T>::on_disconnect")
+    od = inl(F, F.body(KA + "pubsub::KeepAlive::<T>::on_disconnect"))
     nexts = [c for c in od.calls() if strip_generics(c.callee) == ITER_NEXT and ("NextAttempt" in c.self_ty or "BackoffStrategyIter" in c.self_ty) and not c.macros]
     ctx.floor("C12.D2.exhaustion-pubsub.consumers", len(nexts), 1)
     for c in nexts:
@@ -264,13 +276,13 @@ def d4(ctx, F):
         ctx.check(ok, "C12.D4.reregister", "reestablish:%s" % name, "%s::reestablish_connection reconnects (awaited, `?`) and then re-registers with the headers it was given" % name, rb.span)
     # callers hand over the stream's own headers and connection
     for path in (r"^selium::keep_alive::reqrep::KeepAlive::<T>::try_reconnect::\{closure#0\}$", r"^selium::keep_alive::pubsub::KeepAlive::<T>::on_disconnect$"):
-        b = F.one_body(path)
+        b = inl(F, F.one_body(path))
         gh = [c for c in b.calls() if strip_generics(c.callee) == TRAIT + "::get_headers"]
         gc = [c for c in b.calls() if strip_generics(c.callee) == TRAIT + "::get_connection"]
         rs = [c for c in b.calls() if strip_generics(c.callee) == TRAIT + "::reestablish_connection"]
         if not rs:
             # pub/sub: the call sits in the async block created in on_disconnect
-            for cb in F.closures_of(b):
+            for cb in F.closures_in(b):
                 rs += [c for c in cb.calls() if strip_generics(c.callee) == TRAIT + "::reestablish_connection"]
                 ctx.touch(cb)
             ok = len(gh) == 1 and len(gc) == 1 and len(rs) == 1
